@@ -1131,7 +1131,9 @@ func (e *Engine) callMerged(s *State, f *Frame, fn *ssa.Function, args []Value, 
 	e.pushCallBind(sub, fn, args, bind, nil)
 	base := len(s.pc)
 	nAlloc := len(s.allocs)
+	e.lazy++
 	finals := e.Run(sub)
+	e.lazy--
 	e.Paths -= len(finals)
 	graft := func(dst *State, fin *State) {
 		dst.heap, dst.pc, dst.steps, dst.allocs = fin.heap, fin.pc, fin.steps, fin.allocs
@@ -1148,11 +1150,27 @@ func (e *Engine) callMerged(s *State, f *Frame, fn *ssa.Function, args []Value, 
 		s.dead = true
 		return nil
 	}
-	if len(finals) == 1 {
-		graft(s, finals[0])
-		return nil
+	groups := e.mergeFinals(s.pc[:base], nAlloc, finals)
+	var forks []*State
+	for i, g := range groups {
+		if i == 0 {
+			continue
+		}
+		o := s.clone()
+		graft(o, g)
+		forks = append(forks, o)
 	}
-	// greedy grouping: merge each final state into the first compatible group
+	graft(s, groups[0])
+	return forks
+}
+
+// mergeFinals merges the final states of a sub-exploration that agree on pointers and object identities:
+// scalar leaves become ite terms, byte sequences merge pointwise, the path condition becomes base AND (c1 OR c2 ...).
+func (e *Engine) mergeFinals(basePC []*Term, nAlloc int, finals []*State) []*State {
+	base := len(basePC)
+	if len(finals) == 1 {
+		return finals
+	}
 	type group struct {
 		st    *State
 		conds []*Term
@@ -1166,7 +1184,7 @@ func (e *Engine) callMerged(s *State, f *Frame, fn *ssa.Function, args []Value, 
 				if g.st.panicd != "" || g.st.cut != "" {
 					continue
 				}
-				if m, ok := mergeStates(c, fin, g.st, nAlloc, And(Or(g.conds...))); ok {
+				if m, ok := mergeStates(c, fin, g.st, nAlloc, Or(g.conds...)); ok {
 					g.st = m
 					g.conds = append(g.conds, c)
 					merged = true
@@ -1179,20 +1197,32 @@ func (e *Engine) callMerged(s *State, f *Frame, fn *ssa.Function, args []Value, 
 			groups = append(groups, &group{st: fin, conds: []*Term{c}})
 		}
 	}
-	var forks []*State
-	for i, g := range groups {
+	var out []*State
+	for _, g := range groups {
 		if len(g.conds) > 1 {
-			g.st.pc = append(append([]*Term{}, s.pc[:base]...), Or(g.conds...))
+			g.st.pc = append(append([]*Term{}, basePC...), Or(g.conds...))
 		}
-		if i == 0 {
-			continue
-		}
-		o := s.clone()
-		graft(o, g.st)
-		forks = append(forks, o)
+		out = append(out, g.st)
 	}
-	graft(s, groups[0].st)
-	return forks
+	return out
+}
+
+// RunMerged runs fn to completion from s and merges its final states where possible.
+func (e *Engine) RunMerged(s *State, fn *ssa.Function, args []Value) []*State {
+	basePC := append([]*Term{}, s.pc...)
+	nAlloc := len(s.allocs)
+	s.frames = nil
+	e.pushCall(s, fn, args, nil)
+	e.lazy++
+	finals := e.Run(s)
+	e.lazy--
+	if len(finals) <= 1 {
+		return finals
+	}
+	e.Paths -= len(finals)
+	out := e.mergeFinals(basePC, nAlloc, finals)
+	e.Paths += len(out)
+	return out
 }
 
 func mergeValue(c *Term, a, b Value) (Value, bool) {
